@@ -50,6 +50,8 @@ structure Sub where
   errors : Nat
   closed : Bool
   unsubAt : Option Nat
+  notifyRef : Bool         -- NotifyTo came with reference parameters
+  endRef : Bool            -- an EndTo endpoint was given and it has reference parameters of its own (`end_to_ref_params` non-empty)
 deriving DecidableEq, Repr
 
 structure State where
@@ -69,6 +71,11 @@ def State.modeOf (st : State) (addr : Nat) : Outcome := (st.modes.lookup addr).g
 def State.outcomeFor (st : State) (ov : List (Nat × Outcome)) (sub addr : Nat) : Outcome :=
   (ov.lookup sub).getD (st.modeOf addr)
 
+/-- which reference parameters a posted message echoes in its WS-Addressing header -/
+inductive Refs
+  | none | notify | endTo
+deriving DecidableEq, Repr
+
 inductive MsgKind
   | notification (action : Str)
   | subscriptionEnd
@@ -80,10 +87,12 @@ structure Msg where
   sub : Nat
   addr : Nat
   outcome : Outcome
+  refs : Refs
 deriving DecidableEq, Repr
 
 inductive Op
   | subscribe (notifyTo : Nat) (endTo : Option Nat) (filter : Option (List Str)) (dialectOk : Bool) (expires : Option Nat)
+      (notifyRef endRef : Bool)
   | renew (k : Key) (expires : Option Nat)
   | getStatus (k : Key)
   | unsubscribe (k : Key)
@@ -124,18 +133,25 @@ def hit (cfg : Cfg) (k : Key) (s : Sub) : Bool := cfg.mkKey s.id == k && s.unsub
 
 def State.find (cfg : Cfg) (st : State) (k : Key) : Option Sub := st.subs.find? (hit cfg k)
 
+/-- `reference_parameters=self.notify_ref_params` of a notification -/
+def Sub.notifyRefs (s : Sub) : Refs := if s.notifyRef then .notify else .none
+
+/-- `reference_parameters=self.end_to_ref_params or self.notify_ref_params` of the SubscriptionEnd: the EndTo ones if there
+    are any, else the NotifyTo ones — also when an EndTo endpoint without reference parameters was given -/
+def Sub.endRefs (s : Sub) : Refs := if s.endRef then .endTo else s.notifyRefs
+
 /-- `send_notification_report` / `async_send_notification_report` of one subscription selected by `matches` -/
 def deliver (cfg : Cfg) (st : State) (ov : List (Nat × Outcome)) (a : Str) (s : Sub) : Sub × List Msg :=
   if suffixMatch s.filter a && s.valid cfg st.now && s.unsubAt.isNone then
     let o := st.outcomeFor ov s.id s.notifyTo
-    ({ s with errors := if o = .ok then 0 else s.errors + 1 }, [⟨.notification a, s.id, s.notifyTo, o⟩])
+    ({ s with errors := if o = .ok then 0 else s.errors + 1 }, [⟨.notification a, s.id, s.notifyTo, o, s.notifyRefs⟩])
   else (s, [])
 
 /-- `send_notification_end_message` as called from `_end_all_subscriptions` -/
 def endMsg (cfg : Cfg) (st : State) (ov : List (Nat × Outcome)) (s : Sub) : List Msg :=
   if s.unsubAt.isNone && s.valid cfg st.now then
     let a := s.endTo.getD s.notifyTo
-    [⟨.subscriptionEnd, s.id, a, st.outcomeFor ov s.id a⟩]
+    [⟨.subscriptionEnd, s.id, a, st.outcomeFor ov s.id a, s.endRefs⟩]
   else []
 
 /-- the selection of `_do_housekeeping` -/
@@ -148,12 +164,12 @@ def renewed (cfg : Cfg) (now : Nat) (e : Option Nat) (s : Sub) : Sub :=
   { s with started := now, expire := grant cfg e }
 
 def step (cfg : Cfg) (st : State) : Op → State × Out
-  | .subscribe nt et filter dialectOk e =>
+  | .subscribe nt et filter dialectOk e nr er =>
     match filter with
     | none => (st, .rejected)
     | some f =>
       if cfg.checkDialect && !dialectOk then (st, .rejected) else
-      let s : Sub := renewed cfg st.now e ⟨st.nextId, nt, et, f, 0, 0, 0, false, none⟩
+      let s : Sub := renewed cfg st.now e ⟨st.nextId, nt, et, f, 0, 0, 0, false, none, nr, et.isSome && er⟩
       ({ st with subs := st.subs ++ [s], nextId := st.nextId + 1 }, .subscribed s.id (s.remaining st.now))
   | .renew k e =>
     match st.find cfg k with
@@ -201,7 +217,20 @@ structure Rec where
   failures : Nat        -- failed deliveries since the last successful one
   unsub : Bool          -- an `Unsubscribe` was confirmed
   ended : Bool          -- the provider stopped
+  notifyRef : Bool      -- the subscriber's NotifyTo had reference parameters
+  endRef : Bool         -- it gave an EndTo endpoint with reference parameters
 deriving DecidableEq, Repr
+
+/-- the reference parameters of the subscriber's NotifyTo endpoint -/
+def Rec.notifyRefs (r : Rec) : Refs := if r.notifyRef then .notify else .none
+
+/-- what the code echoes in a SubscriptionEnd (`end_to_ref_params or notify_ref_params`) -/
+def Rec.endRefs (r : Rec) : Refs := if r.endRef then .endTo else r.notifyRefs
+
+/-- what the property asks for: the reference parameters of the EndTo endpoint if one was given (none if it has none),
+    otherwise those of NotifyTo -/
+def Rec.endRefsSpec (r : Rec) : Refs :=
+  if r.endRef then .endTo else if r.endTo.isSome then .none else r.notifyRefs
 
 structure Mon where
   recs : Nat → Option Rec
@@ -221,8 +250,8 @@ def Mon.alive (cfg : Cfg) (m : Mon) (i : Nat) : Prop := ∃ r, m.recs i = some r
 
 /-- the monitor's update from one op and the answer it observed -/
 def Mon.step (cfg : Cfg) (m : Mon) : Op → Out → Mon
-  | .subscribe nt et (some f) _ _, .subscribed i g =>
-    { m with recs := fun j => if j = i then some ⟨nt, et, f, m.now, g, 0, false, false⟩ else m.recs j }
+  | .subscribe nt et (some f) _ _ nr er, .subscribed i g =>
+    { m with recs := fun j => if j = i then some ⟨nt, et, f, m.now, g, 0, false, false, nr, et.isSome && er⟩ else m.recs j }
   | .renew k _, .remaining r =>
     { m with recs := fun j =>
         if cfg.mkKey j = k then (m.recs j).map (fun x => { x with grantedAt := m.now, granted := r }) else m.recs j }
